@@ -107,18 +107,22 @@ def order_for(cone):
     return _ORDERS[cone]
 
 
-DYADIC = [1.0, 2.0 ** -13, 2.0 ** 7]
-DECIMAL = [1e-4, 1e2, 0.3]
+# (scale, common translation): the predicates are invariant under a common translation of both regions, and
+# tiny regions far from the origin are what a run displays late (objective values ~100, widths ~1e-3)
+DYADIC = [(1.0, 0.0), (2.0 ** -13, 0.0), (2.0 ** 7, 0.0), (2.0 ** -10, 64.0), (1.0, -1024.0)]
+DECIMAL = [(1e-4, 0.0), (1e2, 0.0), (0.3, 0.0), (1e-3, 100.0), (1e-4, -7.5)]
 
 
 def _rect(b, k):
     import numpy as np
     from vopy.confidence_region import RectangularConfidenceRegion
-    return RectangularConfidenceRegion(2, np.array(b[0], dtype=float) * k, np.array(b[1], dtype=float) * k)
+    k, off = k
+    return RectangularConfidenceRegion(2, np.array(b[0], dtype=float) * k + off, np.array(b[1], dtype=float) * k + off)
 
 
 def _slack_forms(s, k):
     import numpy as np
+    k = k[0]
     forms = [("vector", np.array(s, dtype=float) * k)]
     if s[0] == s[1]:
         forms.append(("scalar", float(s[0]) * k))
@@ -140,7 +144,7 @@ def replay_rows(args):
         order = order_for(r["cone"])
         a = r["ans"]
         K = len(CONES[r["cone"]]["W"])
-        scales = [1.0]
+        scales = [(1.0, 0.0)]
         if r.get("allscales"):
             scales = DYADIC + DECIMAL
         for k in scales:
@@ -368,6 +372,6 @@ def report(ctx, bad, prop):
     """turn mismatches into violations; signature = kind + cone (+ slack form)"""
     for b in bad:
         sig = "%s|cone=%s" % (b["kind"], b["row"]["cone"])
-        msg = "%s: code answered %s, specification says %s at scale %g for %s" % (
+        msg = "%s: code answered %s, specification says %s at scale %s for %s" % (
             b["kind"], b["got"], b["expected"], b["scale"], {k: v for k, v in b["row"].items() if k not in ("ans", "allscales")})
         ctx.violation(sig, b, msg)
